@@ -9,6 +9,7 @@ status pattern and EVERY history of control actions, graph updates and isolation
 import WntrModel.Lemmas.IsolationSim
 import WntrModel.Lemmas.IsolationRun
 import WntrModel.Lemmas.IsolationProg
+import WntrModel.Lemmas.IsolationCsr
 import WntrModel.Gen.IsolationShape
 
 namespace Wntr.Isolation
@@ -111,6 +112,34 @@ theorem csr_init_correct (net : Net) (user internal : List Nat)
     (hperm : net.initOrder.Perm (List.range net.nl)) :
     Good (initGraph net user internal).2 ∧ Synced (initGraph net user internal).2 :=
   init_good net user internal hok hst hperm
+
+/-- **csr_structure_correct**: the COO → CSR construction (`buildCsr`: per row the columns sorted and merged, `indptr` as prefix
+counts — what scipy's `csr_matrix((vals, (rows, cols)), shape=(n, n))` does, compared array by array on every generated case) gives,
+for EVERY network without self-loops whose links are each listed once in pipes ++ pumps ++ valves: `_get_csr_data_index` finds
+both entries of every link, inside the rows the C++ loop scans and holding the other end as column; links of one node pair share
+their two entries, links of different pairs share none; no row holds an entry that is not a link. -/
+theorem csr_structure_correct (net : Net) (user internal : List Nat) (hends : endsOk net)
+    (hperm : net.initOrder.Perm (List.range net.nl)) :
+    (initGraph net user internal).1 = Outcome.ok ∧
+    boundOk net (initGraph net user internal).2.ndx (initGraph net user internal).2.g.indices.length ∧
+    posOk net (initGraph net user internal).2.ndx ∧
+    rowsIn net (initGraph net user internal).2.ndx (initGraph net user internal).2.g.indptr
+      (initGraph net user internal).2.g.indices (initGraph net user internal).2.g.nconn ∧
+    rowsOut net (initGraph net user internal).2.ndx (initGraph net user internal).2.g.indptr
+      (initGraph net user internal).2.g.indices (initGraph net user internal).2.g.nconn :=
+  csr_structure net user internal hends hperm
+
+/-- **csr_init_correct_of_topology**: `csr_init_correct` without any hypothesis on the CSR structure: valid link ends, no
+self-loops, each link listed once, and the table of node pairs with several links (`multiTable`, the `n_links` counting of the
+Python code; decidable, evaluated on every generated case) being right are enough for the whole invariant at the start of a run
+(and of every restart: `InitOk`). -/
+theorem csr_init_correct_of_topology (net : Net) (user internal : List Nat) (hends : endsOk net)
+    (hperm : net.initOrder.Perm (List.range net.nl)) (hmulti : multiOk net (multiTable net)) :
+    InitOk net ∧ Good (initGraph net user internal).2 ∧ Synced (initGraph net user internal).2 := by
+  obtain ⟨h0, h1, h2, h3, h4⟩ := csr_structure net [] [] hends hperm
+  obtain ⟨k0, k1, k2, k3, k4⟩ := csr_structure net user internal hends hperm
+  have hst : (initGraph net user internal).2.Static := ⟨hends, k1, k2, k3, k4, hmulti⟩
+  exact ⟨⟨h0, ⟨hends, h1, h2, h3, h4, hmulti⟩, hperm⟩, init_good net user internal k0 hst hperm⟩
 
 /-! ## 4. stored results -/
 
